@@ -471,11 +471,20 @@ func pverify(seg []byte) string {
 		first = layers.LayerTypeIPv6
 	}
 	p := gopacket.NewPacket(buf.Bytes(), first, gopacket.Default)
+	// API precondition (layers/tcpip.go, examples/): the caller attaches the network layer to TCP/UDP/ICMPv6
+	// with SetNetworkLayerForChecksum before asking for a checksum; decoding does not do it.
+	if ls := p.Layers(); len(ls) > 1 && p.NetworkLayer() != nil {
+		if s, ok := ls[1].(interface {
+			SetNetworkLayerForChecksum(gopacket.NetworkLayer) error
+		}); ok {
+			_ = s.SetNetworkLayerForChecksum(p.NetworkLayer())
+		}
+	}
 	err, mm := p.VerifyChecksums()
 	if err != nil {
 		lib.Stat("pverify:error")
 		if !v.err {
-			lib.Finding("C08", "cksum:packet-verify:"+proto, "Packet.VerifyChecksums returns an error on a decoded packet whose layers verify individually: "+firstWords(err.Error(), 12))
+			lib.Finding("C08", "cksum:packet-verify:"+proto, "Packet.VerifyChecksums returns an error on a decoded packet (network layer attached) whose layers verify individually: "+firstWords(err.Error(), 12))
 		}
 		return "err"
 	}
